@@ -54,13 +54,13 @@ Fixpoint stream_bytes (file : bool) (l : list (option bytes)) : bytes :=
 
 Definition isSomeSse (o : option (list bytes)) : bool :=
   match o with Some _ => true | None => false end.
-Definition sse_events (i : input) : list bytes := match i_sse i with Some l => l | None => [] end.
+Definition sse_events (i : input) : list bytes := match sse_effective i with Some l => l | None => [] end.
 Definition is_file (s : stream) : bool := match k_kind s with KFile => true | KIter => false end.
 
 (* the body the documented precedence selects: text > data > media > stream.  On ASGI an SSE
    emitter, when set, is the (streamed) body. *)
 Definition chosen_body (asgi : bool) (i : input) : bytes :=
-  if asgi && isSomeSse (i_sse i) then concat (sse_events i)
+  if asgi && isSomeSse (sse_effective i) then concat (sse_events i)
   else match render_body i with
        | Some d => d
        | None => match i_stream i with
@@ -71,7 +71,7 @@ Definition chosen_body (asgi : bool) (i : input) : bytes :=
 
 (* "non-streamed": the body does not come from resp.stream / resp.sse *)
 Definition non_streamed (asgi : bool) (i : input) : bool :=
-  negb (asgi && isSomeSse (i_sse i)) &&
+  negb (asgi && isSomeSse (sse_effective i)) &&
   match render_body i with Some _ => true | None => negb (isSomeS (i_stream i)) end.
 
 Fixpoint bytes_eqb (a b : bytes) : bool :=
@@ -102,6 +102,10 @@ Definition stream_has_close (i : input) : bool :=
 Definition close_ok (i : input) (reads closes : nat) : bool :=
   Nat.leb closes 1 &&
   (if Nat.ltb 0 reads then Nat.eqb closes (if stream_has_close i then 1 else 0) else true).
+
+Definition rc0 : recovery :=
+  {| rc_status := SInt 500; rc_text := None; rc_data := None; rc_media := None;
+     rc_media_fails := false; rc_ctype := None |}.
 
 (* ---- WSGI: what the monitor saw *)
 Record wobs := {
